@@ -841,11 +841,13 @@ class Den:
         return Cond(not bool(self.ev(n.kids[0]).mask), ())
 
     def op_conditional(self, n):
+        # the value of a conditional is the value of the branch that is taken; the other branch need not have a value
+        # (sin(x)/x guarded at x == 0, a guarded logarithm): it is not evaluated
         c = self.ev(n.kids[0])
-        a, b = self.ev(n.kids[1]), self.ev(n.kids[2])
-        if a.shape != b.shape or set(a.fi) != set(b.fi):
+        ka, kb = n.kids[1], n.kids[2]
+        if tuple(ka.shape) != tuple(kb.shape) or set(ka.fi) != set(kb.fi):
             raise Reject("conditional branches of different type")
-        return a if bool(c.mask) else b
+        return self.ev(ka) if bool(c.mask) else self.ev(kb)
 
     def op_sign(self, n):
         a = self.ev(n.kids[0])
